@@ -168,6 +168,9 @@ PROPS['C02'].update(engines=[eng_c02.engine], extended=[eng_c02.engine], replaye
 PROPS['C20'].setdefault('engines', []).append(eng_c20.engine)
 PROPS['C20'].setdefault('extended', []).append(eng_c20.engine)
 PROPS['C20'].setdefault('replayers', []).append(eng_c20.replayer)
+PROPS['C17'].setdefault('engines', []).append(eng_c20.engine_c17)
+PROPS['C17'].setdefault('extended', []).append(eng_c20.engine_c17)
+PROPS['C17'].setdefault('replayers', []).append(eng_c20.replayer_c17)
 
 # direct translator validation (kernel evaluated in Coq vs the real function on boundary-biased inputs)
 import eng_kernels
